@@ -440,10 +440,20 @@ func mergeStates(sts []*State) *State {
 	}
 	for k := range gk {
 		var acc *Term
+		var srt *Sort
+		for _, s := range live {
+			if g, ok := s.Ghost[k]; ok {
+				srt = g.S
+			}
+		}
 		for i := len(live) - 1; i >= 0; i-- {
 			g, ok := live[i].Ghost[k]
 			if !ok {
-				continue
+				if strings.HasPrefix(k, "defer:") || strings.HasPrefix(k, "maplen:") {
+					g = IntLit(0)
+				} else {
+					g = Var("g."+k+"@0", srt) // untouched on this path: still the entry value
+				}
 			}
 			if acc == nil {
 				acc = g
